@@ -293,6 +293,75 @@ func sortedPairsBy(l []string, full bool) []string {
 	return r
 }
 
+// spelledPathSegs: the raw path segments of a spelled web URL (scheme://authority/segments?query#fragment, possibly with
+// tabs/newlines inside and whitespace around)
+func spelledPathSegs(text string) ([]string, bool) {
+	s := strings.Map(func(r rune) rune {
+		if r == '\t' || r == '\n' || r == '\r' {
+			return -1
+		}
+		return r
+	}, text)
+	s = strings.Trim(s, "\x00\x01\x02\x03\x04\x05\x06\x07\x08\x0b\x0c\x0e\x0f\x10\x11\x12\x13\x14\x15\x16\x17\x18\x19\x1a\x1b\x1c\x1d\x1e\x1f ")
+	i := strings.Index(s, "://")
+	if i < 0 {
+		return nil, false
+	}
+	s = s[i+3:]
+	if j := strings.IndexAny(s, "?#"); j >= 0 {
+		s = s[:j]
+	}
+	j := strings.IndexByte(s, '/')
+	if j < 0 {
+		return []string{""}, true
+	}
+	return strings.Split(s[j+1:], "/"), true
+}
+
+func decodeAllSegs(segs []string) []string {
+	out := make([]string, len(segs))
+	for i, s := range segs {
+		for k := 0; k < 64; k++ {
+			d := pctDecode(s)
+			if d == s {
+				break
+			}
+			s = d
+		}
+		out[i] = s
+	}
+	return out
+}
+
+// dotNorm: the path state's treatment of dot segments; encoded = also the single-level %2e spellings the parser knows
+func dotNorm(segs []string, encoded bool) []string {
+	single := func(s string) bool { return s == "." || (encoded && strings.EqualFold(s, "%2e")) }
+	double := func(s string) bool {
+		l := strings.ToLower(s)
+		return s == ".." || (encoded && (l == ".%2e" || l == "%2e." || l == "%2e%2e"))
+	}
+	var out []string
+	for i, s := range segs {
+		last := i == len(segs)-1
+		switch {
+		case double(s):
+			if len(out) > 0 {
+				out = out[:len(out)-1]
+			}
+			if last {
+				out = append(out, "")
+			}
+		case single(s):
+			if last {
+				out = append(out, "")
+			}
+		default:
+			out = append(out, s)
+		}
+	}
+	return out
+}
+
 func jsonHex(l []string) string {
 	b, _ := json.Marshal(hxAll(l))
 	return string(b)
@@ -421,6 +490,41 @@ func init() {
 		}
 		a, b := f.Case.Extra["hrefX"], f.Case.Extra["hrefY"]
 		return a != "" && b != "" && (a == b+"#" || b == a+"#")
+	}
+	// D24: the canonicalizer decodes after parsing, so a path segment that is a dot segment only after repeated decoding
+	// (a nested-encoded "." or "..") is still an ordinary segment when a literal ".." after it is resolved, and is then
+	// popped in place of the segment before it. Matches exactly when both results are what that order of steps gives,
+	// while decoding first would give the same path for both spellings.
+	knownMatchers["D24-nested-dot-segment-then-dotdot"] = func(f *Finding) bool {
+		if f.Case.Kind != "pair" {
+			return false
+		}
+		hx, hy := f.Case.Extra["hrefX"], f.Case.Extra["hrefY"]
+		if hx == "" || hy == "" {
+			return false
+		}
+		px, okx := spelledPathSegs(f.Case.Input)
+		py, oky := spelledPathSegs(f.Case.Extra["other"])
+		if !okx || !oky {
+			return false
+		}
+		ix, iy := strings.Join(dotNorm(decodeAllSegs(px), false), "/"), strings.Join(dotNorm(decodeAllSegs(py), false), "/")
+		dx := strings.Join(dotNorm(decodeAllSegs(dotNorm(px, true)), false), "/")
+		dy := strings.Join(dotNorm(decodeAllSegs(dotNorm(py, true)), false), "/")
+		if ix != iy || (dx == ix && dy == iy) {
+			return false
+		}
+		ux, errx := url.Parse(hx)
+		uy, erry := url.Parse(hy)
+		if errx != nil || erry != nil {
+			return false
+		}
+		if ux.Pathname() != "/"+dx || uy.Pathname() != "/"+dy {
+			return false
+		}
+		// nothing but the path differs
+		uy.SetPathname(ux.Pathname())
+		return uy.Href(false) == ux.Href(false)
 	}
 	knownMatchers["D6-idna-canon"] = func(f *Finding) bool {
 		return strings.Contains(f.What, "E 0:1") && idnaStrictZone(f.Host)
@@ -552,6 +656,31 @@ func init() {
 				{cfgFromDesc("specialAdd"), both(schemeIs("sc", "gopher"))},
 				{cfgFromDesc("lax"), func(b *string, in string, dflt Obs) bool { return dflt.Kind != "U" }},
 			}
+			// the options combined: a conservative extension with the disjunction of the triggers (every pair, and all six)
+			{
+				single := append([]ext(nil), exts...)
+				comb := func(idx ...int) ext {
+					var names []string
+					for _, k := range idx {
+						names = append(names, single[k].cfg.Desc)
+					}
+					sort.Strings(names)
+					return ext{cfgFromDesc(strings.Join(names, "+")), func(b *string, in string, dflt Obs) bool {
+						for _, k := range idx {
+							if single[k].trigger(b, in, dflt) {
+								return true
+							}
+						}
+						return false
+					}}
+				}
+				for a := 0; a < len(single); a++ {
+					for b := a + 1; b < len(single); b++ {
+						exts = append(exts, comb(a, b))
+					}
+				}
+				exts = append(exts, comb(0, 1, 2, 3, 4, 5))
+			}
 			c.Pool.Run(20000*c.Scale, func(d *Driver, i int) {
 				r := rng.Fork(i)
 				var base *string
@@ -615,13 +744,30 @@ func init() {
 					setterForm(rmFrag, "remove-fragment", func(u *url.Url) { u.SetHash("") })
 				case 3:
 					// default scheme
-					od := c.cmpProf(d, defHttp, nil, input, allButVerrs, "default-scheme", i)
-					want := o
-					if o.Kind == "E" && strings.HasPrefix(o.Err, "21:") {
-						want = implParse(dp, nil, "http://"+input)
+					// every scheme class as the default (special, file, non-special), also on scheme-less inputs that start with slashes
+					dsNames := []string{"http", "sc", "file", "wss"}
+					k := (i / 4) % len(dsNames)
+					dprof := []*Prof{defHttp, profFromDesc("defSc"), profFromDesc("defFile"), profFromDesc("defWss")}[k]
+					din := input
+					switch (i / 16) % 4 {
+					case 1:
+						din = r.Pick([]string{"/", "//", "///", "/a", "//h/a", "/etc/passwd", "//h", "\\h\a", "/?q", "//@h:1/"}) + r.Pick([]string{"", "x", "x/y?z#f"})
+					case 2:
+						din = r.relRef()
+					}
+					do := o
+					if din != input {
+						do = implParse(dp, nil, din)
+					}
+					od := c.cmpProf(d, dprof, nil, din, allButVerrs, "default-scheme", i)
+					want := do
+					if do.Kind == "E" && strings.HasPrefix(do.Err, "21:") {
+						want = implParse(dp, nil, dsNames[k]+"://"+din)
 					}
 					if diff := obsEq(want, od, urlFieldsOnly); diff != "" {
-						c.Report(Finding{Class: "violation", What: "default-scheme: " + diff, Case: cs})
+						cs2 := cs
+						cs2.Cfg, cs2.Input = dprof.Desc, din
+						c.Report(Finding{Class: "violation", What: fmt.Sprintf("default-scheme %q on %q: %s (the definition gives %s)", dsNames[k], din, diff, want.String()), Case: cs2})
 					}
 				}
 				// sort-query only reorders
